@@ -337,3 +337,29 @@ Proof.
     + cbn [app has_read] in H. rewrite zrun_no_read_unless_validated in H by congruence. discriminate.
   - cbn [app] in H. rewrite zrun_no_read_unless_validated in H by congruence. discriminate.
 Qed.
+
+(* ---------------------------------------------------------------- refutation witnesses *)
+Definition L_wide : limits :=
+  {| max_entries := 50000; max_total := 2 ^ 70; max_single := 2 ^ 70;
+     max_total_ratio := RFin 500 0; max_entry_ratio := RFin 500 0 |}.
+Definition es_wide : list entry :=
+  [ {| file_size := 500 * 2 ^ 60 + 1; compress_size := 2 ^ 60; is_dir := false |} ].
+
+Lemma float_rounding_witness :
+  exists (L : limits) (es : list entry),
+    sizes_nonneg (files es) = true /\ validate L es = Accept /\ Bomb L es.
+Proof.
+  exists L_wide, es_wide. split; [vm_compute; reflexivity|]. split; [vm_compute; reflexivity|].
+  apply bombb_Bomb. vm_compute. reflexivity.
+Qed.
+
+Definition L_huge : limits :=
+  {| max_entries := 50000; max_total := 2 ^ 1100; max_single := 2 ^ 1100;
+     max_total_ratio := RFin 200 0; max_entry_ratio := RFin 500 0 |}.
+Definition es_huge : list entry :=
+  [ {| file_size := 2 ^ 1030; compress_size := 1; is_dir := false |} ].
+
+Lemma overflow_witness :
+  exists (L : limits) (es : list entry),
+    sizes_nonneg (files es) = true /\ validate L es = Overflow.
+Proof. exists L_huge, es_huge. split; vm_compute; reflexivity. Qed.
